@@ -1,6 +1,7 @@
 ------------------------------- MODULE MCOrder -------------------------------
 EXTENDS OrderStats, Json
 CONSTANTS ValSet
+SignedSet == {0 - 1, 0, 2}
 ElemDef == ValSet \cup {NULL}
 
 
